@@ -537,15 +537,13 @@ theorem parseUrl_root_hands_down (w : World) (fuel : Nat) (href : Url) (enc : Op
 /-! ## T8.3 `sheet.encoding` mirrors the `@charset` rule under edits -/
 open CssVerif.EncSheet in
 /-- T8.3 `encoding_mirrors_charset`: after ANY history of public edits (`encoding =`, `insertRule`/`add` of every
-rule kind at every index, `deleteRule`, `rule.encoding =`, `cssText =`; rejected ones change nothing) an `@charset`
-rule can only be the first rule, `sheet.encoding` is the encoding of THE `@charset` rule wherever the sheet has one
-and `utf-8` when it has none, and the serializer encodes with the same name.
+rule kind at every index, with and without `inOrder`, `deleteRule`, `rule.encoding =`, `cssText =`; rejected ones
+change nothing) an `@charset` rule can only be the first rule, `sheet.encoding` is the encoding of THE `@charset` rule
+wherever the sheet has one and `utf-8` when it has none, and the serializer encodes with the same name.
 
-  FULL STATEMENT: for all histories. It fails for one call shape — `insertRule(<@variables>, <explicit index>,
-  inOrder=True)` puts the rule at the given index, also in front of `@charset` (known finding C08-inorder-index;
-  the same holds for `@namespace`, which this model leaves to C09) — hence `_partial` with the guard `OpGuard`. -/
-theorem encoding_mirrors_charset_partial (valid : EncSheet.Name → Bool) (ops : List Op)
-    (hg : ∀ op ∈ ops, OpGuard op) :
+PROMOTED from `encoding_mirrors_charset_partial`: the guard `OpGuard` (no `insertRule(<@variables>, <explicit index>,
+inOrder=True)`) is gone since fix e727728 makes `inOrder=True` ignore the index (finding C08-inorder-index fixed). -/
+theorem encoding_mirrors_charset (valid : EncSheet.Name → Bool) (ops : List Op) :
     Valid (runOps valid [] ops) ∧
     EncSheet.encoding (runOps valid [] ops) =
       (match (runOps valid [] ops).find? Rule.isCharset with | some (.charset e) => e | _ => EncSheet.utf8N) ∧
@@ -557,15 +555,13 @@ theorem encoding_mirrors_charset_partial (valid : EncSheet.Name → Bool) (ops :
     cases rs with
     | nil => rfl
     | cons a t => cases a <;> rfl
-  have hv := runOps_valid valid ops [] hg (by simp [Valid, noCharset])
+  have hv := runOps_valid valid ops [] (by simp [Valid, noCharset])
   exact ⟨hv, aux _ hv, rfl⟩
 
 open CssVerif.EncSheet in
-/-- the witness of C08-inorder-index, in the model: after it the sheet has an `@charset` rule and reports utf-8 -/
+/-- the former witness of C08-inorder-index: the `@variables` rule now goes behind `@charset` -/
 example : runOps (fun _ => true) [] [.setEncoding (some [0x78]), .insert .variables (some 0) true]
-      = [.variables, .charset [0x78]] ∧
-    EncSheet.encoding [.variables, .charset [0x78]] = EncSheet.utf8N ∧ ¬ Valid [.variables, .charset [0x78]] := by
-  decide
+      = [.charset [0x78], .variables] := by decide
 
 open CssVerif.EncSheet in
 /-- setting then getting: an accepted name is reported (lower-cased) -/
@@ -655,7 +651,7 @@ from the original one — for every `rep` and every text of Python characters.
 theorem escapecss_lossless_partial (rep : Nat → Bool) (hr : SyntaxRep rep) (t : List Nat)
     (hchars : ∀ c ∈ t, c ≤ maxUnicode) (hok : ok rep t = true) :
     unescape (escape rep t) = unescape t :=
-  roundtrip_from rep hr t .norm hchars hok
+  roundtrip_from false rep hr t .norm hchars hok
 
 /-- the guard is exact: the escaped text reads the same as the original IF AND ONLY IF no character that has to be
 escaped directly follows an unescaped backslash -/
@@ -666,8 +662,33 @@ theorem escapecss_lossless_iff (rep : Nat → Bool) (hr : SyntaxRep rep) (t : Li
   · intro h
     cases hk : ok rep t with
     | true => rfl
-    | false => exact absurd h (roundtrip_fails_from rep hr t .norm hchars hk)
+    | false => exact absurd h (roundtrip_fails_from false rep hr t .norm hchars hk)
   · exact escapecss_lossless_partial rep hr t hchars
+
+/-- the same for the tokens read with `stringsub` (STRING, INVALID, URI — since the tokenizer round be395e5/12a90a6
+a line continuation is removed in the same pass as escapes are resolved): the value read from the escaped text is
+the value read from the original IF AND ONLY IF no character that has to be escaped directly follows an unescaped
+backslash -/
+theorem escapecss_lossless_str_iff (rep : Nat → Bool) (hr : SyntaxRep rep) (t : List Nat)
+    (hchars : ∀ c ∈ t, c ≤ maxUnicode) :
+    unescapeStr (escape rep t) = unescapeStr t ↔ okStr rep t = true := by
+  constructor
+  · intro h
+    cases hk : okStr rep t with
+    | true => rfl
+    | false => exact absurd h (roundtrip_fails_from true rep hr t .norm hchars hk)
+  · exact roundtrip_from true rep hr t .norm hchars
+
+/-- COMMENT and ATKEYWORD tokens are read VERBATIM (comments since fix 975ab00): there the text survives IF AND
+ONLY IF nothing had to be escaped — an unrepresentable character in a comment or in the keyword of an unknown
+at-rule comes back as the text of its escape (known findings C08-comment-unencodable, C08-atkeyword-escape) -/
+theorem escapecss_verbatim_iff (rep : Nat → Bool) (hr : SyntaxRep rep) (t : List Nat) :
+    escape rep t = t ↔ ∀ c ∈ t, rep c = true := by
+  constructor
+  · intro h c hc
+    have := escape_representable rep hr t c (by rw [h]; exact hc)
+    exact this
+  · exact escape_id rep t
 
 /-- `escape` works character by character, so it can be read token by token -/
 theorem escapecss_tokenwise (rep : Nat → Bool) (a b : List Nat) :
@@ -701,6 +722,30 @@ reads as an escaped backslash followed by the text `E4 ` — the character is go
 example : escape repAscii [0x5C, 0xE4] = [0x5C, 0x5C, 0x45, 0x34, 0x20] ∧
     unescape (escape repAscii [0x5C, 0xE4]) = [0x5C, 0x5C, 0x45, 0x34, 0x20] ∧
     unescape [0x5C, 0xE4] = [0x5C, 0xE4] ∧ ok repAscii [0x5C, 0xE4] = false := by decide
+
+/-- T8.4b for EVERY token kind, the kind made explicit: escaping keeps the value the tokenizer reads from a token of
+kind `k` IF AND ONLY IF `lossless rep k t` — for names and strings: no character to be escaped directly follows an
+unescaped backslash; for COMMENT / ATKEYWORD tokens, which are read verbatim: nothing at all had to be escaped. So the
+lossless statement holds OUTSIDE comments (and at-keywords) up to the backslash guard, and inside comments only when
+every character is representable (known findings C08-comment-unencodable, C08-atkeyword-escape). -/
+theorem escapecss_lossless_by_kind (rep : Nat → Bool) (hr : SyntaxRep rep) (k : TokKind) (t : List Nat)
+    (hchars : ∀ c ∈ t, c ≤ maxUnicode) :
+    reads k (escape rep t) = reads k t ↔ lossless rep k t = true := by
+  cases k with
+  | name => exact escapecss_lossless_iff rep hr t hchars
+  | str => exact escapecss_lossless_str_iff rep hr t hchars
+  | verbatim =>
+    simp only [reads, lossless, List.all_eq_true]
+    exact escapecss_verbatim_iff rep hr t
+
+/-- the witness of C08-comment-unencodable: the comment text `ä` written for ASCII is `\E4 `, and that is what a comment
+token then holds -/
+example : escape repAscii [0xE4] = [0x5C, 0x45, 0x34, 0x20] ∧ escape repAscii [0xE4] ≠ [0xE4] := by decide
+
+/-- a line continuation in a string is removed, an escaped line feed is kept (fix 12a90a6) -/
+example : unescapeStr [0x61, 0x5C, 0x0A, 0x62] = [0x61, 0x62] ∧ unescapeStr [0x61, 0x5C, 0x0D, 0x0A, 0x62] = [0x61, 0x62] ∧
+    unescapeStr [0x5C, 0x35, 0x63, 0x5C, 0x61, 0x20] = [0x5C, 0x5C, 0x0A] ∧
+    unescape [0x61, 0x5C, 0x0A, 0x62] = [0x61, 0x5C, 0x0A, 0x62] := by decide
 
 /-! non-vacuity: the hypotheses above are satisfiable, and the models compute what the implementation shows -/
 example : ok repAscii [0x61, 0xE4, 0x5C, 0x5C, 0xE4] = true ∧
